@@ -173,7 +173,16 @@ def corpus():
            "inner": [("set", b"\x01\x01", b"z" * 40, "item"), ("batch", [("set", b"\x01\x01", b"a" * 40, "meth")], None),
                      ("get", b"\x01\x01", "meth")],
            "after": [("get", b"\x01\x01", "meth"), ("set", b"\x03", b"x", "meth"), ("get", b"\x01\x02", "meth")], "exit": ("commit", None)}
-    return [d3, d2, dict(d3, exit=("commit", None)), dict(d2, prune=False, exit=("commit_fail", 1))] + d4 + [tab, dict(tab, prune=False)]
+    # a block on an EMPTY pruning trie (its count table is an empty dict), abandoned after a write; then the same write for real
+    e5 = {"prune": True, "prior": [], "inner": [("set", b"\x12\x34", b"v" * 40, "meth"), ("set", b"\x12\x35", b"w" * 40, "meth")],
+          "after": [("set", b"\x12\x34", b"v" * 40, "meth"), ("del", b"\x12\x34", "item"), ("get", b"\x12\x35", "meth")], "exit": ("abort", 2)}
+    # two byte-identical sibling leaves that are the only children of their branch; the block removes one of them
+    V = b"V" * 40
+    tw = {"prune": True, "prior": [("set", b"\x12\x01", V, "meth"), ("set", b"\x12\x11", V, "meth")],
+          "inner": [("del", b"\x12\x01", "meth"), ("get", b"\x12\x11", "meth")],
+          "after": [("get", b"\x12\x11", "meth"), ("set", b"\x12\x01", V, "item"), ("del", b"\x12\x11", "meth")], "exit": ("commit", None)}
+    return ([d3, d2, dict(d3, exit=("commit", None)), dict(d2, prune=False, exit=("commit_fail", 1))] + d4 + [tab, dict(tab, prune=False)]
+            + [e5, dict(e5, exit=("commit", None)), tw, dict(tw, prune=False), dict(tw, inner=[("batch", tw["inner"], None)])])
 
 
 def check(tier, seed):
